@@ -450,12 +450,21 @@ func (e *Engine) execInstr(f *frame, b *ssa.BasicBlock, in ssa.Instruction, st *
 		}
 		panic(reject("defer"))
 	case *ssa.Go:
+		if e.AbstractConc {
+			e.note("go statements are ignored (the started goroutine's effects are not modelled)")
+			return
+		}
 		panic(reject("go statement"))
 	case *ssa.Select:
 		panic(reject("select"))
 	case *ssa.Send:
 		panic(reject("channel send"))
 	case *ssa.MakeChan:
+		if e.AbstractConc {
+			ref := e.newRef(st)
+			f.vals[x] = Val{Typ: x.Type(), Terms: []*smt.Term{ref}}
+			return
+		}
 		panic(reject("make chan"))
 	default:
 		panic(reject(fmt.Sprintf("unsupported instruction %T", in)))
